@@ -9,7 +9,7 @@ From Coq Require Export List ZArith NArith Bool Lia.
 Export ListNotations.
 Open Scope N_scope.
 
-Definition atom := N.
+Notation atom := N (only parsing).
 
 Record input := mkIn { i_ns : atom; i_typ : atom; i_id : option atom; i_kind : N }.
 (* kinds: 0 weak, 1 strong, 2 destroy-ready, 3 q-primary, 4 q-mapped, 5 q-mapped-destroy-ready *)
